@@ -4,7 +4,8 @@
       iso_re, chg_re, mpp_re, str_re = compile(r'...')          pattern texts (the hand-written scanners of Model.Query
                                                                 are for exactly these; pinned by theorem)
       charge_dict, replace_dict, not_dict                       module level dict displays
-      _tokenize: the `token_type not in (...)` tuple of the '!' branch
+      _tokenize: the `token_type not in (...)` tuple of the '!' branch, the `tokens[-1][0] not in (...)` tuple of the
+                 ring-mark branch, the token types tested after the loop
       _query_parse: the string literals `p` is compared with (a, A, !R, M), the tuple of primitive letters
                     `(t := p[0][0]) not in (...)`, and the (letter, key) pairs of the final if-chain
   chython/periodictable/base/query.py
@@ -82,6 +83,11 @@ def main(repo='/repo', dest=None):
     if len(notin) != 1:
         raise TranslatorError(f'{p_tk}: expected exactly one `token_type not in (...)` in _tokenize, found {len(notin)}')
     not_after = const_tuple(notin[0].comparators[0], int, f'{p_tk}:{notin[0].lineno}')
+    sub_notin = [n for n in ast.walk(tok) if isinstance(n, ast.Compare) and len(n.ops) == 1 and isinstance(n.ops[0], ast.NotIn)
+                 and isinstance(n.left, ast.Subscript) and isinstance(n.comparators[0], ast.Tuple)]
+    if len(sub_notin) != 1:
+        raise TranslatorError(f'{p_tk}: expected exactly one `tokens[-1][0] not in (...)` in _tokenize, found {len(sub_notin)}')
+    ring_after = const_tuple(sub_notin[0].comparators[0], int, f'{p_tk}:{sub_notin[0].lineno}')
     # the final checks of _tokenize: token types tested after the loop, in source order
     after = [n for n in tok.body if isinstance(n, ast.If)]
     if not after:
@@ -172,6 +178,8 @@ def main(repo='/repo', dest=None):
         f'Definition st_not_dict : list (string * list Z) := {lst([tup(cs(k), lst(v, zraw)) for k, v in notd])}.',
         "(* token types after which a '!' may start a not-bond *)",
         f'Definition not_bond_after : list Z := {lst(not_after, zraw)}.',
+        "(* token types a ring mark ;@ / ;!@ may follow *)",
+        f'Definition ring_mark_after : list Z := {lst(ring_after, zraw)}.',
         '(* the tests after the loop of _tokenize: (token type, exception raised or "-"); -1 = `elif token` *)',
         f'Definition final_tests : list (Z * string) := {lst([tup(zraw(a), cs(b)) for a, b in final_types])}.',
         '(* _query_parse: whole-primitive keywords in source order, letters of valued primitives, letter -> key *)',
